@@ -135,7 +135,7 @@ INVARIANTS = {
     "stop": ["iter_advances_by_one", "iter_counts_updates", "query_changed_state", "state_differs_from_canonical_run",
              "loop_exceeds_max_iter", "run_exceeds_max_iter", "run_returned_before_done", "run_output_not_held_solution",
              "run_update_count_differs_from_manual_loop", "run_result_differs_from_manual_loop",
-             "early_stop_not_fixed_point", "abandoned_update_stops_the_loop", "power_estimate_decreased",
+             "early_stop_not_fixed_point", "breakdown_flagged_without_non_positive_curvature", "abandoned_update_stops_the_loop", "power_estimate_decreased",
              "power_estimate_exceeds_lmax", "power_estimate_not_finite", "library_raised"],
     "rng": ["global_rng_state_changed", "mask_not_reproducible", "earlier_mask_changed", "mask_not_binary", "mask_shape",
             "mask_dtype", "mask_empty", "accel_out_of_tolerance", "accel_le_1_accepted", "calibration_not_fully_sampled",
